@@ -185,6 +185,21 @@ Definition fmtF (upper : bool) (x : spec_float) (d : nat) : str :=
   | S754_nan => (if upper then [78; 65; 78] else [110; 97; 110])%N
   end.
 
+(* float.__round__(x, nd) (CPython floatobject.c, double_round): beyond 323 decimals x itself, below -308 a signed zero,
+   otherwise the exact half-even rounding of x to nd decimals (dtoa mode 3) read back as the nearest double (strtod);
+   None = OverflowError("rounded value too large to represent") *)
+Definition py_round (x : spec_float) (nd : Z) : option spec_float :=
+  match x with
+  | S754_finite s m e =>
+      if 323 <? nd then Some x
+      else if nd <? -308 then Some (S754_zero s)
+      else match sf_of_dec s (round_dec m e nd) (- nd) with
+           | S754_infinity _ => None
+           | y => Some y
+           end
+  | _ => Some x
+  end.
+
 (* floor(log10(num/den)) for num, den > 0 *)
 Definition ilog10 (num den : Z) : Z :=
   if den <=? num then Z.of_nat (length (dec_digits (num / den))) - 1
@@ -211,4 +226,22 @@ Definition fmtE (upper : bool) (x : spec_float) (d : nat) : str :=
       else sci_text upper s n d e10
   | S754_infinity s => sign_text s ++ (if upper then [73; 78; 70] else [105; 110; 102])%N
   | S754_nan => (if upper then [78; 65; 78] else [110; 97; 110])%N
+  end.
+
+(* what the E branch of FloatField._textual_write hands to format: round(x, d - floor(log10|x|)), x <> 0.
+   floor(log10|x|) is exact here; the C library's log10 is not modelled (DESIGN.md, trusted base): just below a power of
+   ten it may round up to the integer, and the harness takes such inputs out of the correspondence. *)
+Definition sci_nd (m : positive) (e : Z) (d : nat) : Z :=
+  let (num, den) := scaled m e 0 in Z.of_nat d - ilog10 num den.
+Definition sci_val (x : spec_float) (d : nat) : spec_float :=
+  match x with
+  | S754_finite s m e => match py_round x (sci_nd m e d) with Some y => y | None => S754_infinity s end
+  | _ => x
+  end.
+(* the write raises OverflowError: round() overflows, or floor(log10(inf)) *)
+Definition sci_raises (x : spec_float) (d : nat) : bool :=
+  match x with
+  | S754_finite s m e => match py_round x (sci_nd m e d) with Some _ => false | None => true end
+  | S754_infinity _ => true
+  | _ => false
   end.
